@@ -549,12 +549,56 @@ def r06_8(ctx, counts: dict[str, int]) -> RuleResult:
     return res
 
 
+def r06_9(ctx, counts: dict[str, int]) -> RuleResult:
+    """xs:float is closed under the arithmetic the operators apply to it"""
+    model = ctx.model
+    res = RuleResult(
+        'R06.9', 'FLOAT-CLOSED-UNDER-ARITHMETIC',
+        'xs:float is the Float subclass of float; an operation it does not override falls back to '
+        'float and returns a plain float, i.e. an xs:double. The operators of the package apply '
+        'to their operands: + - * / % (binary, both orders), unary - and +, and abs() (fn:abs and '
+        'the sign handling of mod). The class therefore defines __add__ __sub__ __mul__ '
+        '__truediv__ __mod__ with their reflected forms and __neg__ __pos__ __abs__, and each of '
+        'them has a return built with self.__class__(..) / Float(..) or returning self. Without '
+        '__neg__, -xs:float(1) and xs:float(-7) mod xs:float(2) were xs:double.')
+    cls = [c for c in model.find_classes('Float')
+           if c.module.name == 'elementpath.datatypes.numeric']
+    if not cls:
+        raise AnalysisError('datatypes.numeric.Float vanished')
+    fl = cls[0]
+    need = ['__add__', '__radd__', '__sub__', '__rsub__', '__mul__', '__rmul__', '__truediv__',
+            '__rtruediv__', '__mod__', '__rmod__', '__neg__', '__pos__', '__abs__']
+    n = 0
+    for name in need:
+        n += 1
+        m = fl.methods.get(name)
+        ok = False
+        if m is not None:
+            for r in walk_local(m.node):
+                if isinstance(r, ast.Return) and r.value is not None:
+                    t = stmt_text(r.value)
+                    if t == 'self' or t.startswith('self.__class__(') or t.startswith('Float(') \
+                            or t.startswith('type(self)('):
+                        ok = True
+        res.instances.append(f'{fl.key}.{name}: defined and closed: {ok}')
+        if ok:
+            res.ok()
+        else:
+            res.fail(finding('R06.9', m, m.node if m else fl.node, f'Float.{name}',
+                             f'Float (xs:float) has no {name} returning an xs:float: the operation '
+                             f'falls back to float and yields an xs:double (-xs:float(1) instance '
+                             f'of xs:float is false)', **({} if m else {'module': fl.module})))
+    counts['float_dunders'] = n
+    return res
+
+
 def run(ctx) -> dict:
     counts: dict[str, int] = {}
     return {
         'results': [r06_1(ctx, counts), r06_2(ctx, counts), r06_3(ctx, counts), r06_4(ctx, counts),
                     r06_5(ctx, counts), r06_6(ctx, counts),
-                    r06_7(ctx, counts), r06_8(ctx, counts)], 'counts': counts,
+                    r06_7(ctx, counts), r06_8(ctx, counts),
+                    r06_9(ctx, counts)], 'counts': counts,
         'explanation':
             'Decided: the rounding-mode clause of C06 and one IEEE clause (the sign of a zero '
             'divisor is never read through a comparison). Rounding: a who-may-call rule confines '
